@@ -297,11 +297,12 @@ def julianDateToDatetime(julian_date):
         datetime: Converted ``datetime`` object.
     """
     year, month, day, hour, minute, second = julian_date.calendar_date
-    date_time = datetime(int(year), int(month), int(day), int(hour), int(minute), int(second))
-    # Handle floating-point error in JulianDate -> calendar date/time conversion
+    # Handle floating-point error in JulianDate -> calendar date/time conversion: the decoded second carries
+    # the rounding error of the Julian date (tens of microseconds, either sign), so round it to the nearest
+    # whole second instead of truncating it; `timedelta` carries a rounded-up 60 into the minute.
     # [NOTE] This implementation assumes that time steps will always be multiples of whole seconds.
-    if int(second) != second and round(second) == 60:
-        date_time += timedelta(seconds=1)
+    date_time = datetime(int(year), int(month), int(day), int(hour), int(minute))
+    date_time += timedelta(seconds=round(second))
 
     return date_time
 
